@@ -8,5 +8,5 @@ for id in "$@"; do
   BENIGN_ENV="VERIF_BUDGET_S=$B VERIF_SEED=${SEED:-5}" python3 /verif/tools/evalbenign.py $d $P $id --tier thorough 2>&1 | grep -v conda | tail -12 > /tmp/mut/evalbt_$id.log
   head -1 /tmp/mut/evalbt_$id.log
 done
-rm -rf /tmp/ev/gocache
+pgrep -f "benign|evalmut" >/dev/null || rm -rf /tmp/ev/gocache
 echo thorough-queue-done
